@@ -25,11 +25,11 @@ type verifFidM struct {
 }
 
 type verifSess struct {
-	fs  *verifFS
-	s   *Server
-	cs  *connState
-	tab []*verifFidM // reference fid table
-	lastFid fid      // first fid named by the last request of verifStep
+	fs      *verifFS
+	s       *Server
+	cs      *connState
+	tab     []*verifFidM // reference fid table
+	lastFid fid          // first fid named by the last request of verifStep
 }
 
 func (x *verifSess) get(f fid) *verifFidM {
